@@ -28,7 +28,7 @@ def splitBar (xs : List String) : List (List String) :=
   xs.foldr (fun x acc => if x = "|" then [] :: acc else match acc with | [] => [[x]] | a :: r => (x :: a) :: r) [[]]
 /-- the two in-place mutators / pure functions the harness uses -/
 def mutOf (kind : String) (k : Nat) : List Nat → List Nat :=
-  if kind = "push" then fun v => v ++ [k] else if kind = "set0" then fun v => match v with | [] => [] | _ :: r => k :: r
+  if kind = "same" then id else if kind = "push" then fun v => v ++ [k] else if kind = "set0" then fun v => match v with | [] => [] | _ :: r => k :: r
   else fun v => v.map (· + k)
 
 def spaceOf (s : String) : Space := if s = "R" then .real else if s = "F" then .fourier else .nonspatial
@@ -44,6 +44,7 @@ def rhsOf (toks : List String) : Rhs Float :=
   | ["scalar", x] => .lit (.scalar (hexToFloat x))
   | "pp" :: xs => .lit (.perPoint (hexs xs))
   | "pm" :: xs => .lit (.perMatrix (hexs xs))
+  | "vec" :: xs => .lit (.perCol (hexs xs))
   | "full" :: xs => .lit (.full (hexs xs))
   | _ => .lit (.scalar 0)
 def mhStep (h : MH Float) (op : MOp Float) : MH Float × String :=
